@@ -8,6 +8,7 @@ pub mod c06;
 pub mod c09;
 pub mod c10;
 pub mod c13;
+pub mod c15;
 pub mod c16;
 pub mod c19;
 pub mod e3;
@@ -28,6 +29,7 @@ pub fn run(id: &str, tier: Tier) -> i32 {
         "C17" => e3::run_c17(tier),
         "C16" => c16::run(tier),
         "C13" => c13::run(tier),
+        "C15" => c15::run(tier),
         "C11" => e4::run_c11(tier),
         "C12" => e4::run_c12(tier),
         _ => {
@@ -51,6 +53,7 @@ pub fn recheck(id: &str, case: &Value) -> Vec<String> {
         "C17" => e3::recheck_rt(case),
         "C16" => c16::recheck(case),
         "C13" => c13::recheck(case),
+        "C15" => c15::recheck(case),
         "C11" => e4::recheck_c11(case),
         "C12" => e4::recheck_c12(case),
         _ => vec![],
